@@ -24,11 +24,11 @@ def _gens():
     ]
     thorough = [
         dict(ed, name="1call-2faults", env=dict(poor, VERIF_MAXTOP=1, VERIF_MAXFAULTS=2, VERIF_MAXSETTLE=0)),
-        dict(ed, name="2calls-1fault-settle", max=1200, env=dict(poor, VERIF_MAXTOP=2, VERIF_MAXFAULTS=1, VERIF_MAXSETTLE=1)),
-        dict(ed, name="2calls-rich-tol1", max=600, env=dict(rich, VERIF_MAXTOP=2, VERIF_MAXFAULTS=1, VERIF_MAXSETTLE=1, VERIF_TOL=1, VERIF_THR=1)),
-        dict(sim, name="walks-poor", num=150, max=500, salt=1,
+        dict(ed, name="2calls-1fault-settle", max=700, env=dict(poor, VERIF_MAXTOP=2, VERIF_MAXFAULTS=1, VERIF_MAXSETTLE=1)),
+        dict(ed, name="2calls-rich-tol1", max=400, env=dict(rich, VERIF_MAXTOP=2, VERIF_MAXFAULTS=1, VERIF_MAXSETTLE=1, VERIF_TOL=1, VERIF_THR=1)),
+        dict(sim, name="walks-poor", num=120, max=300, salt=1,
              env=dict(poor, VERIF_MAXTOP=6, VERIF_MAXFAULTS=4, VERIF_MAXSETTLE=2, VERIF_MINOPS=4)),
-        dict(sim, name="walks-rich", num=150, max=500, salt=2,
+        dict(sim, name="walks-rich", num=120, max=300, salt=2,
              env=dict(rich, VERIF_MAXTOP=7, VERIF_MAXFAULTS=4, VERIF_MAXSETTLE=3, VERIF_MINOPS=5, VERIF_TOL=3)),
         # the same with a full 256 KiB chunk as c2 (framing, validation and store of a real-size delivery)
         dict(sim, name="walks-big", num=20, max=40, salt=3,
